@@ -1,6 +1,7 @@
 import Cppcheck.Proofs.AstStore
 import Cppcheck.Proofs.Links
 import Cppcheck.Proofs.DumpXml
+import Cppcheck.Gen.DumpEnums
 /-
 C14 — dump output is well-formed and self-consistent: the three mechanisms.
 
@@ -85,6 +86,36 @@ example : createLinks [['('], ['x'], ['['], ['{', 'x'], ['}'], [']'], [')']]
     = .ok [some 6, none, some 5, some 4, some 3, some 2, some 0] := by rfl
 example : createLinks [['('], ['['], [')'], [']']] = .error (.unmatched 1) := by rfl
 
+/-! ## link writers after `createLinks`
+
+Every pass between `createLinks` and the dump writes links only through `Token::createMutualLinks(a, b)` /
+`a->link(b); b->link(a);` and `a->link(nullptr)` (obligation `T-link-writers`).  The theorems above describe the vector at
+creation time; these two say which later writes keep it symmetric.  Nesting of the dumped links is checked per dump only. -/
+
+/-- `createMutualLinks` on two distinct, currently unlinked tokens keeps the link vector symmetric. -/
+theorem mutualLinks_preserve_symmetric (f : Nat → Option Nat) (a b : Nat) (h : SymF f) (hab : a ≠ b)
+    (ha : f a = none) (hb : f b = none) : SymF (mutualLinks f a b) :=
+  mutualLinks_symF f a b h hab ha hb
+
+/-- Clearing both ends of a linked pair keeps it symmetric. -/
+theorem clearPair_preserves_symmetric (f : Nat → Option Nat) (a b : Nat) (h : SymF f) (hl : f a = some b) :
+    SymF (clearLink (clearLink f a) b) :=
+  clearPair_symF f a b h hl
+
+/-- Clearing ONE end does not (the code relies on the partner being deleted or cleared next): not an invariant of the API. -/
+theorem clearLink_alone_counterexample : ¬ ∀ (f : Nat → Option Nat) (a : Nat), SymF f → SymF (clearLink f a) := by
+  intro h
+  have hs : SymF (mutualLinks (fun _ => none) 0 1) :=
+    mutualLinks_symF _ 0 1 symF_empty (by decide) rfl rfl
+  exact absurd ((h _ 0 hs).1 1 0 (by decide)) (by decide)
+
+/-- the hypotheses are met by a non-trivial vector: `( [ ] )` linked pair by pair, then the inner pair cleared -/
+example : SymF (clearLink (clearLink (mutualLinks (mutualLinks (fun _ => none) 1 2) 0 3) 1) 2) :=
+  clearPair_symF _ 1 2
+    (mutualLinks_symF _ 0 3 (mutualLinks_symF _ 1 2 symF_empty (by decide) rfl rfl)
+      (by decide) (by decide) (by decide))
+    (by decide)
+
 /-! ## attribute values -/
 
 /-- For every byte string the output of `toxml` is a concatenation of the eight references and of characters in
@@ -128,5 +159,17 @@ theorem idString_wellformed (l : Nat) : AttrSafe (idString l) := by
   split
   · intro c hc; simp at hc; subst hc; decide
   · exact idDigits_plain l l [] (by simp)
+
+/-- `std::to_string` of an integer: sign and decimal digits only. -/
+theorem number_wellformed (z : Int) : AttrSafe (intString z) :=
+  AttrSafe.of_plain _ (intString_plain z)
+
+/-- Every string an `enum` writer of the dump can return (the literals extracted from the current source of the twelve
+    printers by the translator) is plain attribute content. -/
+theorem enum_wellformed : ∀ p ∈ Cppcheck.Gen.DumpEnums.enumLiterals, ∀ s ∈ p.2, AttrSafe s := by
+  have h : ∀ p ∈ Cppcheck.Gen.DumpEnums.enumLiterals, ∀ s ∈ p.2, allPlain s = true := by decide
+  exact fun p hp s hs => AttrSafe.of_allPlain s (h p hp s hs)
+
+example : intString (-1205) = ['-', '1', '2', '0', '5'] := by decide
 
 end Cppcheck.C14
